@@ -1250,6 +1250,10 @@ def det_fingerprint(athlib, master, idx, k):
             res = run_one(athlib, scn['programs'], spec, 300000, epilogue=epi)
             fp.append([res['status'], common.canon_outcome(res['out']), res['switches'], res['digest'], res['steps'],
                        common.canon_outcome(res.get('epi'))])
+        # and one schedule that pre-empts inside a line (instruction events must count the same everywhere)
+        spec = draw_op_schedule(random.Random(seeds[0] ^ 0x5bd1e995), len(scn['programs']), traces, wlines)
+        res = run_one(athlib, scn['programs'], spec, 300000, epilogue=epi)
+        fp.append([res['status'], common.canon_outcome(res['out']), res['switches'], res['digest'], res['steps']])
         return common.digest_of([scn, common.canon_outcome([[sorted(x) for x in a] for a in accepted]),
                                  common.canon_outcome([sorted(x) for x in accepted.epi]), fp])
     return common.fork_call(job, wall_cap=300.0, what='det fingerprint %d' % idx)
